@@ -30,6 +30,11 @@ def plan(tier):
             bound = 2 if (deep and base and cfg['d'] == 3 and cfg['n_inner'] == 2 and cfg['imputer'] == 'joint'
                           and cfg['names'] == 'str') else 1
             tasks.append((cfg, T, bound, True, 3 if (deep and base and bound == 1) else 2))
+    # long streams (5 observations, 4 explained) around the two base executions: state carried over several steps
+    for cfg in sc.product_configs('sage', 'quick'):
+        if cfg['d'] == 2 and cfg['n_inner'] == 1 and cfg['storage'] == 'Batch' and cfg['names'] == 'str' \
+                and cfg['imputer'] in ('joint', 'default'):
+            tasks.append((cfg, 5 if not deep else 6, 0, False, 2))
     tasks.sort(key=lambda t: -(t[2] or 0))
     return tasks
 
